@@ -5,3 +5,4 @@ open GoRedis
 #print axioms C06_progress
 #print axioms C06_bulk_limit
 #print axioms C06_truncated_array_is_error
+#print axioms C06_source_bulk_length
